@@ -156,7 +156,16 @@ def bar(
 @check_ndim(2)
 def map(h2: Histogram2D, **kwargs) -> go.Figure:
     """Heatmap."""
-    data = [go.Heatmap(z=h2.frequencies, **kwargs)]
+    # A heatmap's rows run along y: the frequencies (x bins along rows) are transposed
+    # and the cells are placed at the centers of the bins.
+    data = [
+        go.Heatmap(
+            z=h2.frequencies.T,
+            x=h2.get_bin_centers(0),
+            y=h2.get_bin_centers(1),
+            **kwargs,
+        )
+    ]
     layout = go.Layout()
     figure = go.Figure(data=data, layout=layout)
     return figure
